@@ -30,3 +30,6 @@ CHECKS = {
         ],
     },
 }
+
+HOOK_COMMITS = ["da8b80e"]
+NOT_APPLICABLE = {}
